@@ -1177,6 +1177,10 @@ class World:
                 o = {"C08"}
             elif cls == "measurement":
                 o = {"C05"} if self.csv else {"C01"}
+                if op.get("via") == "h":
+                    # inserting through a handle stores the point under the
+                    # handle's measurement
+                    o = o | {"C10"}
             elif cls in ("tags", "fields"):
                 o = {"C05", "C04"} if self.csv else {"C01"}
             else:
